@@ -429,7 +429,7 @@ def _enumerate(rec, tier, seed, bound_out):
                     for M in sorted({2 * m, n - 1, n, 200}):
                         if M < 2 * m:
                             continue
-                        for g in ([1.5] if quick else [1.1, 1.5, 2.0]):
+                        for g in (([1.5, 2.0] if M % 2 == 0 else [1.5]) if quick else [1.1, 1.5, 2.0]):
                             kind = kinds[(n + m + M + p) % 4]
                             X = O.gen_data(rng, n, p, kind)
                             inp = {"check": "run", "scorer": {"kind": "builtin", "name": name}, "X": X, "m": m, "M": M, "g": g,
@@ -451,7 +451,7 @@ def _enumerate(rec, tier, seed, bound_out):
                     for M in sorted({2 * m, n, n + 1, 200} if quick else {2 * m, 2 * m + 1, n - 1, n, n + 1, 200}):
                         if M < 2 * m:
                             continue
-                        for g in ([1.5] if quick else [1.1, 1.5, 2.0] if n <= 8 else [1.5, 2.0]):
+                        for g in (([1.5, 2.0] if M % 2 == 0 else [1.5]) if quick else [1.1, 1.5, 2.0] if n <= 8 else [1.5, 2.0]):
                             kind = kinds[(n + m + M) % 4]
                             X = O.gen_data(rng, n, p, kind)
                             if n == 2 * m and spec.get("name") in ("CUSUM", "L2Cost"):     # the replay of DESIGN 10-C07: a 100 sigma jump in the only admissible place
